@@ -121,6 +121,19 @@ inductive Ev
   | rNext (f n x : Nat)
   deriving Repr, DecidableEq, Inhabited
 
+/-- per-fiber ghost history counters -/
+structure G where
+  claimed : Nat := 0      -- as signaller: amount claimed in the current call
+  popped : Nat := 0       -- as signaller: pops performed in the current call
+  holds : Bool := false   -- as signaller: the call was made holding M
+  nC : Nat := 0           -- as waiter: #registrations (fetch_add)
+  nE : Nat := 0           --            #enqueues (xchg on C.tail)
+  nL : Nat := 0           --            #links (prev->next = node): switched away
+  nU : Nat := 0           --            #releases of M on its behalf (deferred unlock)
+  nP : Nat := 0           --            #times popped from C.waiters (released)
+  nR : Nat := 0           --            #returns from wait
+  deriving Repr, Inhabited
+
 structure St where
   /-- user mutex M and internal mutex I: the C03 model (their own `fnode`/`ndata` are scratch) -/
   m : Mutex.St
@@ -146,14 +159,7 @@ structure St where
   nclaim : Nat               -- Σ claims (signals that saw ≥ 1, broadcast amounts)
   miss : Int                 -- 1 while a signal's fetch_sub(→ -1) awaits its add-back
   owed : Nat                 -- pops the current claimer still has to perform
-  claimed : Nat → Nat        -- per signaller: amount claimed in the current call
-  popped : Nat → Nat         -- per signaller: pops performed in the current call
-  holds : Nat → Bool         -- per signaller: the call was made holding M
-  nC : Nat → Nat             -- per waiter: #registrations, #enqueues (xchg), #links, #deferred unlocks
-  nE : Nat → Nat
-  nL : Nat → Nat
-  nU : Nat → Nat
-  nret : Nat                 -- #returns from wait
+  gh : Nat → G               -- per-fiber history counters
 
 def tailNode (s : St) : Nat :=
   match s.order.getLast? with
@@ -171,9 +177,7 @@ def init : St :=
     fnode := fun a => if a % 2 = 0 then a / 2 + 4 else 0, ndata := fun _ => 0,
     count := 0, stub := 1, order := [], linked := fun _ => false, hd := 0, headNode := 1,
     pc := fun _ => .idle, deferred := fun _ => none, onBehalf := fun _ => none,
-    nreg := 0, nclaim := 0, miss := 0, owed := 0, claimed := fun _ => 0, popped := fun _ => 0,
-    holds := fun _ => false, nC := fun _ => 0, nE := fun _ => 0, nL := fun _ => 0, nU := fun _ => 0,
-    nret := 0 }
+    nreg := 0, nclaim := 0, miss := 0, owed := 0, gh := fun _ => {} }
 
 /-! ### running the mutex sub-models -/
 
@@ -277,7 +281,7 @@ def stepC (s : St) (f : Nat) : Ev → Option St
     | .pushXchgd m' p i =>
       -- the link: w's last step before it switches away.  M passes from `A w` to `D w`.
       if n = p ∧ x = m' ∧ s.m.pc (A f) = .held ∧ s.m.owner = some (A f) ∧ s.m.pc (D f) = .idle then
-        some { s with linked := upd s.linked i true, pc := upd s.pc f .parked, nL := upd s.nL f (s.nL f + 1),
+        some { s with linked := upd s.linked i true, pc := upd s.pc f .parked, gh := upd s.gh f { s.gh f with nL := (s.gh f).nL + 1 },
                       m := { s.m with pc := upd (upd s.m.pc (A f) .idle) (D f) .held, owner := some (D f) } }
       else none
     | _ => none
@@ -286,7 +290,7 @@ def stepC (s : St) (f : Nat) : Ev → Option St
     | .pushCleared m' =>
       if q = .C ∧ new = m' ∧ old = tailNode s then
         some { s with order := s.order ++ [(m', f)], pc := upd s.pc f (.pushXchgd m' old s.order.length),
-                      nE := upd s.nE f (s.nE f + 1) }
+                      gh := upd s.gh f { s.gh f with nE := (s.gh f).nE + 1 } }
       else none
     | _ => none
   | .rHead q _ n =>
@@ -309,7 +313,9 @@ def stepC (s : St) (f : Nat) : Ev → Option St
         | some (_, g) =>
           -- the pop takes effect: the oldest enqueued waiter is released
           if s.pc g = .parked ∧ g ≠ f then
-            some { s with headNode := x, hd := s.hd + 1, owed := s.owed - 1, popped := upd s.popped f (s.popped f + 1),
+            some { s with headNode := x, hd := s.hd + 1, owed := s.owed - 1,
+                          gh := upd (upd s.gh g { s.gh g with nP := (s.gh g).nP + 1 }) f
+                                  { s.gh f with popped := (s.gh f).popped + 1 },
                           pc := upd (upd s.pc g .woken) f (.wake bc (k - 1) (.moved h x)) }
           else none
         | none => none
@@ -351,8 +357,7 @@ def callSig (s : St) (f : Nat) (h bc : Bool) : Option St :=
   if s.pc f = .idle ∧ s.onBehalf f = none ∧
       (if h then s.m.pc (A f) = .held ∧ s.m.owner = some (A f) else s.m.pc (A f) = .idle) then
     (stepI s (.callLock (A f))).map (fun s =>
-      { s with pc := upd s.pc f (.lockI bc), holds := upd s.holds f h,
-               claimed := upd s.claimed f 0, popped := upd s.popped f 0 })
+      { s with pc := upd s.pc f (.lockI bc), gh := upd s.gh f { s.gh f with holds := h, claimed := 0, popped := 0 } })
   else none
 
 def retSig (s : St) (f : Nat) (bc : Bool) : Option St :=
@@ -377,7 +382,7 @@ def step (s : St) : Ev → Option St
     if s.pc f = .waitCalled then
       -- registration; `manager[t]->mutex_to_unlock = M`
       if old = s.count ∧ s.deferred t = none then
-        some { s with count := old + 1, nreg := s.nreg + 1, nC := upd s.nC f (s.nC f + 1),
+        some { s with count := old + 1, nreg := s.nreg + 1, gh := upd s.gh f { s.gh f with nC := (s.gh f).nC + 1 },
                       deferred := upd s.deferred t (some f), pc := upd s.pc f .waitCounted }
       else none
     else if s.pc f = .sigMiss then
@@ -385,7 +390,7 @@ def step (s : St) : Ev → Option St
     else none
   | .retWait f =>
     if s.pc f = .relock then
-      (stepM s (.retLock (A f))).map (fun s => { s with pc := upd s.pc f .idle, nret := s.nret + 1 })
+      (stepM s (.retLock (A f))).map (fun s => { s with pc := upd s.pc f .idle, gh := upd s.gh f { s.gh f with nR := (s.gh f).nR + 1 } })
     else none
   /- signal / broadcast -/
   | .callSignal f h => callSig s f h false
@@ -394,7 +399,7 @@ def step (s : St) : Ev → Option St
     if s.pc f = .lockI false ∧ old = s.count ∧ s.onBehalf f = none then
       (stepI s (.retLock (A f))).bind (fun s =>
         if old ≥ 1 then
-          some { s with count := old - 1, nclaim := s.nclaim + 1, owed := 1, claimed := upd s.claimed f 1,
+          some { s with count := old - 1, nclaim := s.nclaim + 1, owed := 1, gh := upd s.gh f { s.gh f with claimed := 1 },
                         pc := upd s.pc f (.wake false 1 .top) }
         else some { s with count := old - 1, miss := 1, pc := upd s.pc f .sigMiss })
     else none
@@ -402,7 +407,7 @@ def step (s : St) : Ev → Option St
     if s.pc f = .lockI true ∧ old = s.count ∧ old ≥ 0 ∧ s.onBehalf f = none then
       (stepI s (.retLock (A f))).bind (fun s =>
         let s := { s with count := 0, nclaim := s.nclaim + old.toNat, owed := old.toNat,
-                          claimed := upd s.claimed f old.toNat }
+                          gh := upd s.gh f { s.gh f with claimed := old.toNat } }
         if old.toNat = 0 then toUnlockI s f true
         else some { s with pc := upd s.pc f (.wake true old.toNat .top) })
     else none
@@ -429,7 +434,7 @@ def step (s : St) : Ev → Option St
           if s.m.pc (D w) = .held then
             (((stepM s (.callUnlock (D w))).bind (fun s => stepM s (.fadd (D w) old))).bind
               (fun s => retireD s g w)).map
-              (fun s => { s with deferred := upd s.deferred t none, nU := upd s.nU w (s.nU w + 1) })
+              (fun s => { s with deferred := upd s.deferred t none, gh := upd s.gh w { s.gh w with nU := (s.gh w).nU + 1 } })
           else none
         | none => none
     else dispatch s (.fadd q t g old)
